@@ -8,11 +8,13 @@ From Coq Require Import List Bool.
 From Dastard Require Import C10.Conc.
 Import ListNotations.
 
-Inductive rsrc := RTriangle | RSimPulse | RErroring.       (* sources a client can name in Start *)
+Inductive rsrc := RTriangle | RSimPulse | RErroring | RLancero.   (* sources a client can name in Start *)
 Inductive rop :=
 | RStart (k : rsrc)        (* SourceControl.Start *)
 | RSelfEnd                 (* the running source ends its run by itself (nobody tells the server) *)
-| RStop.                   (* SourceControl.Stop *)
+| RStop                    (* SourceControl.Stop *)
+| RReq.                    (* a queued control request with valid arguments (ConfigureTriggers); before it is sent a
+                              source of a self-ending kind is given the time to end its run *)
 
 Inductive rrun := RunNone | RunLive (k : rsrc) | RunDead.   (* the real source: inactive / active / ended by itself *)
 Record rstate := mkR { r_flag : bool; r_run : rrun }.        (* r_flag = s.isSourceActive *)
@@ -33,6 +35,13 @@ Definition rpc_step (s : rstate) (o : rop) : rstate * option rc :=
       (* "no source is active" when the flag is down; otherwise ActiveSource.Stop() (its error, if the source
          had ended by itself, is ignored), then handlePossibleStoppedSource brings the flag down *)
       if negb (r_flag s) then (s, Some RErr) else (mkR false RunNone, Some ROk)
+  | RReq =>
+      (* runLaterIfActive refreshes the flag first: answered by the core loop of a live source, refused otherwise *)
+      if negb (r_flag s) then (s, Some RErr)
+      else match r_run s with
+           | RunLive k => if self_ends k then (mkR false RunNone, Some RErr) else (s, Some ROk)
+           | _ => (mkR false RunNone, Some RErr)
+           end
   end.
 
 Fixpoint rpc_run (s : rstate) (h : list rop) : rstate * list rc :=
